@@ -3,7 +3,7 @@ from checks import rtcommon
 
 
 def run(ctx):
-    args = (["--n", "500", "--maxdim", "64", "--exh", "1"] if ctx.quick else ["--n", "6000", "--maxdim", "96", "--exh", "2", "--big"])
+    args = (["--n", "500", "--maxdim", "64", "--exh", "1"] if ctx.quick else ["--n", "24000", "--maxdim", "96", "--exh", "2", "--big"])
     return rtcommon.run_contract(
         ctx, "c12", args, class_keys=("c", "p", "signed", "q", "levels", "cls"), trace_module="IrrTrace",
         rule="scenario = jpeg2000 Encoder/Decoder with Lossless=false, NumLayers=1, no rate target; round-robin P {8,12,16} x signed x "
